@@ -12,15 +12,31 @@ import (
 
 // C12: PeekingLexer cursors stay consistent under any sequence of operations.
 
-const (
-	tA lexer.TokenType = -2 - iota // elided
-	tB                             // elided
-	tC                             // plain
-	tD                             // plain
+// Token type values: negative ones as the library's own lexers hand out, and
+// (c12SetTypes) zero and positive ones as a custom lexer with rune-valued types would.
+var (
+	tA lexer.TokenType = -2 // elided
+	tB lexer.TokenType = -3 // elided
+	tC lexer.TokenType = -4 // plain
+	tD lexer.TokenType = -5 // plain
 )
 
 var c12Kinds = []lexer.TokenType{tA, tB, tC, tD}
 var c12KindName = map[lexer.TokenType]string{tA: "a", tB: "b", tC: "C", tD: "D", lexer.EOF: "$"}
+
+// c12SetTypes chooses the numeric values of the four token types.
+func c12SetTypes(which int) {
+	switch which % 3 {
+	case 1:
+		tA, tB, tC, tD = 0, 'b', -2, 'D'
+	case 2:
+		tA, tB, tC, tD = 7, -2, 0, -9
+	default:
+		tA, tB, tC, tD = -2, -3, -4, -5
+	}
+	c12Kinds = []lexer.TokenType{tA, tB, tC, tD}
+	c12KindName = map[lexer.TokenType]string{tA: "a", tB: "b", tC: "C", tD: "D", lexer.EOF: "$"}
+}
 
 type sliceLexer struct {
 	toks []lexer.Token
@@ -303,6 +319,10 @@ func c12Child(c *mon.Child) {
 	nRandom := c.N(20000, 60000)
 	rng := c.RNG("random")
 	for i := 0; i < nRandom; i++ {
+		c12SetTypes(i / 7)
+		if i/7%3 != 0 {
+			c.Feature("cases_with_zero_or_positive_token_type_values")
+		}
 		n := rng.Intn(13)
 		kinds := make([]lexer.TokenType, n)
 		vals := make([]string, n)
@@ -337,6 +357,7 @@ func c12Child(c *mon.Child) {
 		c12ElideEOF = false
 		c.End(key)
 	}
+	c12SetTypes(0)
 	if !c.Thorough() {
 		return
 	}
